@@ -1,6 +1,7 @@
 package main
 
 import (
+	"github.com/veraison/psatoken/zzverif/simrt"
 	"bytes"
 	"encoding/json"
 	"fmt"
@@ -269,6 +270,9 @@ func execOne(path, prop string) int {
 	if w == nil {
 		fmt.Fprintln(os.Stderr, "unknown world", tr.World)
 		return 2
+	}
+	if hb := os.Getenv("VERIF_HEARTBEAT"); hb != "" {
+		go simrt.Heartbeat(hb, func(p string, b []byte) error { return os.WriteFile(p, b, 0o644) }, func() { time.Sleep(2 * time.Second) })
 	}
 	res := w.Exec(prop, &tr)
 	out, _ := json.Marshal(toWire(res, false))
